@@ -132,7 +132,7 @@ var sharedRules = map[string]map[string][]string{
 	"C05": {"C16": {"floor-first", "marker-with-history"}, "C09": {"reorg", "cache-invalidate"}, "C08": {"cache-coherence"}},
 	"C06": {"C02": {"verify-success"}},
 	"C07": {"C08": {"index-every-tx", "cache-coherence"}},
-	"C08": {"C03": {"every-entry", "gates", "history-pairing"}, "C11": {"no-pooled-escape"}},
+	"C08": {"C03": {"every-entry", "gates", "history-pairing"}, "C11": {"no-pooled-escape", "numbers-exact"}},
 	"C13": {"C14": {"min-over-all-refs", "prune-filter-agreement", "replay-order"}},
 	"C17": {"C08": {"atomic-check-then-store"}},
 }
